@@ -4,13 +4,15 @@
 // (go/ast), and lookup tables dumped by running the freshly compiled functions (HEX of every
 // byte, UPPER/LOWER of every ASCII byte, the base64 alphabet).
 //
-// run: every case is ONE call `name(literal, …)` of a registered function on literal arguments
+// run: a single-call case is ONE call `name(literal, …)` of a registered function on literal arguments
 // (NULL / BIGINT / LONGTEXT / LONGBLOB), evaluated through the registry's constructor
 // (`sql.Function.NewInstance`) and `Eval`; the observation is the Go value (kind + bytes), an
 // error class, or `crash`. The Lean driver answers with the Impl model's prediction, the Spec and
 // the region. The model-free oracle evaluates the property's identities (inverse pairs, length
 // laws, split/concat, mutual consistency, NULL propagation) by composing calls on the real code;
-// every intermediate call is itself a correspondence case.
+// every intermediate call is itself a correspondence case. rows.go adds the statement-level
+// streams (one node, one Eval per row, results read after the last row), facts_nodes.go the
+// regenerated facts about the state of the function nodes.
 package main
 
 import (
@@ -484,7 +486,10 @@ func run(a hx.RunArgs) error {
 	defer out.Close()
 	out.Rule = "one case = one call name(literals) of a registered scalar function (NULL/BIGINT/LONGTEXT/LONGBLOB literals; strings over ASCII + caseless 2/3/4-byte " +
 		"characters + ill-formed UTF-8 fragments; integers small, boundary and random 64-bit), produced by a corpus of witnesses, per-function argument generators " +
-		"and the identity oracles (whose intermediate calls are cases too); a case is non-trivial when no argument is NULL and the result is a non-NULL value"
+		"and the identity oracles (whose intermediate calls are cases too); a case is non-trivial when no argument is NULL and the result is a non-NULL value; " +
+		"statement-level cases (rows / stmt): ONE node of a modelled function evaluated for 2-7 rows of same-kind argument tuples (half of them longest first, some with a repeated row) — " +
+		"directly (constructor over column references, returned Go values retained and read after the last row) and through Engine.Query over a table (ORDER BY id / ORDER BY the computed value, " +
+		"whole result set fetched, raw rows read afterwards); non-trivial when at least two rows have distinct non-NULL results"
 	e := eng.New("d")
 	w := &world{ctx: e.Ctx(), reg: map[string]sql.Function{}, out: out, seen: map[string]cached{}}
 	for _, f := range function.BuiltIns {
